@@ -10,3 +10,27 @@ pub assume_specification<'a, T>[ <&'a mut [T] as core::iter::IntoIterator>::into
         iter.will_return_none(),
         iter.decrease() is Some,
 ;
+
+//@ assume std::Vec::capacity : std documentation: capacity() >= len()
+pub assume_specification<T, A: core::alloc::Allocator>[ Vec::<T, A>::capacity ](v: &Vec<T, A>) -> (r: usize)
+    ensures r >= v@.len();
+
+//@ assume std::Vec::shrink_to_fit : std documentation: contents unchanged
+pub assume_specification<T, A: core::alloc::Allocator>[ Vec::<T, A>::shrink_to_fit ](v: &mut Vec<T, A>)
+    ensures final(v)@ == old(v)@;
+
+//@ assume __rpos_nz_len : rule R12a: std semantics of `s.iter().rposition(|&d| d != 0).map_or(0, |i| i + 1)`
+#[verifier::external_body]
+pub fn __rpos_nz_len(s: &[u64]) -> (r: usize)
+    ensures r <= s.len(), r == 0 || s[r - 1] != 0, forall|j: int| r <= j < s.len() ==> s[j] == 0
+{ unimplemented!() }
+
+//@ assume __pos_nz : rule R12b: std semantics of `s.iter().position(|&d| d != 0)`
+#[verifier::external_body]
+pub fn __pos_nz(s: &[u64]) -> (r: Option<usize>)
+    ensures
+        match r {
+            Some(i) => i < s.len() && s[i as int] != 0 && forall|j: int| 0 <= j < i ==> s[j] == 0,
+            None => forall|j: int| 0 <= j < s.len() ==> s[j] == 0,
+        }
+{ unimplemented!() }
